@@ -421,7 +421,7 @@ def own_frames(prop, pinfo, rep):
             if not ok:
                 failed.setdefault(ob, []).append(key)
         analysed |= o.analysed
-        notes |= o.notes
+        notes |= set(o.notes) | {"not a frame obligation: " + x for x in o.exempt}
         assumed |= o.assumed
     rep.own.update(obligations=len(seen), discharged=sum(1 for v in seen.values() if v), functions_analysed=len(analysed),
                    seconds=round(time.time() - t0, 2), notes=sorted(notes)[:40], assumed_pure=sorted(assumed)[:80])
@@ -502,7 +502,10 @@ def crosscheck(prop, mods, rep, seed, n):
             continue
         if getattr(c, "no_runtime", False) or c.body is not None:
             continue
-        ins = gen.inputs_for(c, seed, n)
+        # a function that left the verified subset on this tree has no obligations: its run-time contract check is all there
+        # is, so it gets twenty times the samples (a defect that shows on one input in a few hundred must not slip through)
+        demoted = any(d["function"] == key for d in rep.demoted)
+        ins = gen.inputs_for(c, seed, min(n * 20, 6000) if demoted else n)
         items.append({"key": key, "inputs": [{k: enc(v) for k, v in a.items()} for a in ins]})
     from contracts import PROPS
     custom = PROPS[prop].get("runtime_checks", [])
